@@ -1,4 +1,5 @@
 import RaftProps.C12
+import RaftProps.RN
 
 /-!
 # C09 — membership changes: one at a time, configuration is a function of the applied log
@@ -66,5 +67,28 @@ theorem C09_classification (cc : ConfChangeV2) :
     (cc.classify = .simple ↔ cc.transition = .auto ∧ cc.changes.length = 1) := by
   have := C12_classification_total cc
   exact ⟨this.1, this.2.1, this.2.2.2.2⟩
+
+/-! ### node-level discipline, on the executable node model (`RaftModel.Raft*`, tied to raft.rs by the
+free-running correspondence `rvh raftnode`) -/
+
+/-- a node that is not a voter of its own configuration (`promotable = false`: learner, removed,
+not yet added) never starts an election on its own: a tick only counts, whatever the elapsed time -/
+theorem C09_non_voter_never_campaigns_on_tick (r : RaftModel.Raft) (hs : r.state ≠ .leader)
+    (hp : r.promotable = false) :
+    r.tick = .ok ({ r with electionElapsed := r.electionElapsed + 1 }, false) :=
+  RaftProps.RN.non_promotable_never_campaigns_on_tick r hs hp
+
+/-- … and ignores a leader's `MsgTimeoutNow` -/
+theorem C09_non_voter_ignores_timeout_now (r : RaftModel.Raft) (m : RaftModel.Message)
+    (hm : m.msgType = .msgTimeoutNow) (hp : r.promotable = false) :
+    r.stepFollower m = .ok (r, none) :=
+  RaftProps.RN.non_promotable_ignores_timeout_now r m hm hp
+
+/-- no campaign (timeout, explicit `campaign()`, transfer) while a committed membership change has
+not been applied: the node's configuration is current w.r.t. its commit index whenever it asks for votes -/
+theorem C09_no_campaign_with_unapplied_change (r : RaftModel.Raft) (transfer : Bool)
+    (h : r.hasUnappliedConfChanges r.hupScanLow (r.raftLog.committed + 1) = .ok true) :
+    r.hup transfer = .ok r :=
+  RaftProps.RN.hup_blocked_by_unapplied_conf r transfer h
 
 end RaftProps.C09
